@@ -76,7 +76,7 @@ pub fn decode_u32_slice(bytes: &[u8]) -> Result<(u32, usize), DecodeError> {
     };
     part0 -= 0x80 << 21;
     b = unsafe { *bytes.get_unchecked(4) };
-    if b < 0x0f {
+    if b <= 0x0f {
         // or it will overflow
         return Ok((part0 + (u32::from(b) << 28), 5));
     };
